@@ -12,6 +12,8 @@
 // connection, other spellings of the request, a second tunnel at the same time, both ends finishing together, and
 // the oracle clauses eof_spurious / eof_unclean / release after a 502. Their signatures lead with the family name.
 // Round 7 (sizeconv.go): conversations whose relayed messages have a size at a buffer constant of the code.
+// Round 8 (idleconnect.go): the client connection sits idle before the CONNECT request is sent and the tunnel is then
+// in use across the moment the deadline of that exchange would fire; dial errors of particular kinds.
 //
 // Development aids: C04_ONLY=<substring of the scenario description>, C04_BOUND=<n>, C04_LIST=1, C04_STATS=1.
 package main
@@ -90,6 +92,16 @@ type scenario struct {
 	// at, next to, or a multiple of a buffer size of the code: bufio 4096, io.Copy 32 KiB) is followed by its sender
 	// waiting for the peer's reply; names the family in the signature, does not change behaviour
 	SizeConv int `json:",omitempty"`
+	// Round 8 (idleconnect.go). IdleMs: milliseconds of (virtual) silence the client keeps on its connection to the
+	// proxy - after connecting, or after the exchange named by Prior - before it sends the CONNECT request;
+	// IdleClass names where that silence lies relative to the proxy's timeout ("0", "under_half", "over_half",
+	// "near_timeout", "late_first_byte") and, when set, names the family in the signature instead of "gaps".
+	IdleMs    int    `json:",omitempty"`
+	IdleClass string `json:",omitempty"`
+	// DialErrKind (with DialErr): the error the dial fails with: "" an opaque error, "timeout" a net.Error whose
+	// Timeout() is true (black-holed address, dial deadline), "eof" io.EOF, "closedpipe" io.ErrClosedPipe (what a
+	// custom SetDial may hand back)
+	DialErrKind string `json:",omitempty"`
 }
 
 // refusals: final answers of a downstream proxy that declines the tunnel; KeepAlive: it then waits for the next
@@ -157,6 +169,12 @@ func (s scenario) extra() string {
 	if s.SizeConv != 0 {
 		add("sizeconv", s.SizeConv)
 	}
+	if s.IdleClass != "" {
+		add("idleconnect", fmt.Sprintf("%s(%dms)", s.IdleClass, s.IdleMs))
+	}
+	if s.DialErrKind != "" {
+		add("dialerr", s.DialErrKind)
+	}
 	return out
 }
 
@@ -169,7 +187,9 @@ func (s scenario) classTag() string {
 	if s.DialConn != "" {
 		t += ":dialconn=" + s.DialConn
 	}
-	if s.Gap != 0 {
+	if s.IdleClass != "" {
+		t += ":idleconnect=" + s.IdleClass
+	} else if s.Gap != 0 {
 		t += ":gaps"
 	}
 	if s.Cap != 0 {
@@ -189,6 +209,9 @@ func (s scenario) classTag() string {
 	}
 	if s.SizeConv != 0 {
 		t += fmt.Sprintf(":sizeconv=%d", s.SizeConv)
+	}
+	if s.DialErrKind != "" {
+		t += ":dialerr=" + s.DialErrKind
 	}
 	return t
 }
@@ -484,7 +507,7 @@ func run(sc scenario) (body func(), check func(r *vrt.Result) []finding) {
 		w.Proxy.SetDial(func(network, addr string) (net.Conn, error) {
 			dials++
 			if sc.DialErr || (sc.Prior == "502" && dials == 1) {
-				return nil, errors.New("simulated dial failure")
+				return nil, dialError(sc.DialErrKind)
 			}
 			if addr == "other.test:443" {
 				a, b := simnet.Pipe("proxy>target2", "target2")
@@ -700,6 +723,11 @@ func run(sc scenario) (body func(), check func(r *vrt.Result) []finding) {
 				cl.C.Close()
 				return
 			}
+			if sc.IdleMs > 0 {
+				// the connection sits idle (a pooled / pre-connected proxy connection, a keep-alive connection between two
+				// exchanges) before the CONNECT request is sent
+				vrt.Sleep(time.Duration(sc.IdleMs) * time.Millisecond)
+			}
 			rest := cpay
 			switch sc.Head {
 			case 0:
@@ -778,13 +806,14 @@ func run(sc scenario) (body func(), check func(r *vrt.Result) []finding) {
 			runSide(cs, rest, initiates("client"), sc.Mode, br, need, stall, ready, also)
 		})
 		vrt.WaitQuiescent()
-		if sc.Pause > 0 || sc.Gap > 0 {
+		if sc.Pause > 0 || sc.Gap > 0 || sc.IdleMs > 0 {
 			// the tunnel stays silent for a while (each silence well below the proxy's idle timeout) before chunks are
 			// written; "promptly" is then judged one virtual second after the last pause can have ended
 			d := time.Duration(sc.Pause) * time.Second
 			if sc.Gap > 0 {
 				d = time.Duration(sc.Gap*(len(sc.CChunks)+len(sc.TChunks))) * time.Second
 			}
+			d += time.Duration(sc.IdleMs) * time.Millisecond
 			vrt.Sleep(d + time.Second)
 			vrt.WaitQuiescent()
 		}
@@ -1202,7 +1231,8 @@ func scenarios(tier string) []scenario {
 		}
 	}
 	out = append(out, scenario{DialErr: true}, scenario{DialErr: true, Route: "downstream"})
-	return append(append(out, auditScenarios(tier)...), sizeConvScenarios(tier)...)
+	out = append(append(out, auditScenarios(tier)...), sizeConvScenarios(tier)...)
+	return append(out, idleConnectScenarios(tier)...)
 }
 
 // auditScenarios are the families added by the coverage audit (checks/c04/AUDIT.md). Scenarios marked Lite are
@@ -1557,8 +1587,8 @@ func main() {
 	rep.Coverage["exhaustive"] = rep.Incomplete == ""
 	rep.Coverage["evaluations"] = rep.Counter("executions")
 	rep.Coverage["distinct_nontrivial"] = rep.Counter("scenarios_with_multiple_outcomes")
-	rep.Coverage["rule"] = "a case is a scenario (early-data placement, chunk lists of both directions, who finishes first and how, route, connection capability classes, history on the connection, request spelling, timing, buffer capacity, message sizes at the code's buffer constants inside a conversation); all its executions are the schedules with at most the stated number of deviations from the default schedule, and the oracle is evaluated on every one of them; a scenario counts as non-trivial when its observation log depends on the schedule (at least two distinct logs)"
-	rep.Coverage["bounds"] = fmt.Sprintf("%d scenarios (5 early-data placements x client/target chunk lists {[],[3],[1,2]} x who finishes first {client, target, both} x full/half close/reset; large sizes 4097/5003/32769 bytes and sizes that fill the 4096-byte buffers exactly; short-read variants; dial error); downstream-proxy route incl. a downstream proxy that closes, answers garbage or refuses (403/407/502/503); connection capability classes {TCP-like, CloseWrite only, net.Conn only} on either side and a traffic-shaping listener; silent periods of 11 s and 200 s before the last chunks and tunnels that outlive SetTimeout(30 s) / the default timeout with 11 s / 100 s gaps; socket buffers capped at 2048 bytes with a stalled reader; CONNECT after a 502 / a GET / pipelined behind a GET; HTTP/1.0, Connection: close, Proxy-Connection, IPv6 spellings; a second tunnel at the same time; conversations in which a relayed message of 4095/4096/4097/8192 bytes (thorough: also 32767/32768/32769) is followed by its sender waiting for the reply, sent by the client, the target or both, as first or second message or twice in a row, on all three routes; every schedule with <= %d deviations (one less for large sizes and for the scenarios marked lite)", len(scen), bound)
+	rep.Coverage["rule"] = "a case is a scenario (early-data placement, chunk lists of both directions, who finishes first and how, route, connection capability classes, history on the connection, request spelling, timing (before and after the CONNECT), buffer capacity, message sizes at the code's buffer constants inside a conversation); all its executions are the schedules with at most the stated number of deviations from the default schedule, and the oracle is evaluated on every one of them; a scenario counts as non-trivial when its observation log depends on the schedule (at least two distinct logs)"
+	rep.Coverage["bounds"] = fmt.Sprintf("%d scenarios (5 early-data placements x client/target chunk lists {[],[3],[1,2]} x who finishes first {client, target, both} x full/half close/reset; large sizes 4097/5003/32769 bytes and sizes that fill the 4096-byte buffers exactly; short-read variants; dial error); downstream-proxy route incl. a downstream proxy that closes, answers garbage or refuses (403/407/502/503); connection capability classes {TCP-like, CloseWrite only, net.Conn only} on either side and a traffic-shaping listener; silent periods of 11 s and 200 s before the last chunks and tunnels that outlive SetTimeout(30 s) / the default timeout with 11 s / 100 s gaps; socket buffers capped at 2048 bytes with a stalled reader; CONNECT after a 502 / a GET / pipelined behind a GET; HTTP/1.0, Connection: close, Proxy-Connection, IPv6 spellings; a second tunnel at the same time; conversations in which a relayed message of 4095/4096/4097/8192 bytes (thorough: also 32767/32768/32769) is followed by its sender waiting for the reply, sent by the client, the target or both, as first or second message or twice in a row, on all three routes; client connections that sit idle for 0 / just under and over half the timeout / just under the timeout (SetTimeout(30 s) and the default) before the CONNECT is sent, as first exchange or after a GET, followed by ping-pong / upload-only / download-only traffic with 1 s..110 s gaps until three messages after the moment the deadline of the CONNECT exchange would fire, all three routes; dial errors that are a timeout net.Error / io.EOF / io.ErrClosedPipe; every schedule with <= %d deviations (one less for large sizes and for the scenarios marked lite)", len(scen), bound)
 	rep.Coverage["explanation"] = "each execution runs the real proxy.go CONNECT path over simnet under the gosim scheduler; prompt = first quiescent point with zero virtual time elapsed (no timeout can have fired), or one virtual second after the last scripted pause"
 	rep.Assumptions = []string{"simnet models TCP (coalescing reads, FIN on close / CloseWrite, writes to a closed peer fail from the second write on)", "real-time pauses are represented by interleavings and by scripted periods of virtual time", "a simnet write with an expired write deadline still succeeds while buffer space is left (the kernel would refuse it): a tunnel cut by the deadline shows through the reading side only"}
 	rep.Finish()
